@@ -223,4 +223,18 @@ PROPS = {
         "quick": {"budget_s": 75, "chunk": 15},
         "thorough": {"budget_s": 900, "chunk": 15, "minimise_s": 90},
     },
+    "C15": {
+        "test": "TestC15",
+        "level": "exploration",
+        "world": "A: 3-4 real Network engine nodes with configured node DIDs (did:nuts via the real VDR, keyAgreement keys, NutsComm services), a scripted peer, identities decided by the real TLS authenticator",
+        "rule": "each run: 1-3 private transactions with seeded participant lists (including lists the creator is not on), created on seeded nodes; the scripted peer "
+                "appears to each node as anonymous, authenticated-but-unlisted, or claiming a listed DID with a foreign / no certificate, and sends payload, list, range "
+                "and state queries for every private transaction, as do honest unlisted nodes; unsolicited payloads with mismatching data and for unknown transactions "
+                "are pushed. Every envelope handed to Send on any node is scanned for the private payload bytes. Distinct = (participant lists, identities) signatures.",
+        "invariants": ["C15.leak", "C15.store"],
+        "assumptions": ["the handshake inside the real gRPC connection manager is not run, only the authenticator it calls; a failed authentication is modelled as an anonymous peer"],
+        "probes_expected": ["listed-participant-received-payload", "authentication-refused"],
+        "quick": {"budget_s": 100, "chunk": 6, "chunk_timeout_s": 1200},
+        "thorough": {"budget_s": 1200, "chunk": 6, "minimise_s": 200, "chunk_timeout_s": 2400},
+    },
 }
